@@ -201,3 +201,55 @@ MANIFEST_TEXT["C14"] = {
     "technique": "runtime monitoring: round-trip through independent parsers",
 }
 NOT_APPLICABLE[:] = [e for e in NOT_APPLICABLE if e["property_id"] not in ("C12", "C13", "C14")]
+
+PROPS["C15"] = {
+    "level": "exploration",
+    "rule": "cases = incremental histories of add_clause (length 0-5, units, duplicate literals, tautologies, rare empty clause) / reserve (below, at, above the current count) / solve / solve_under_assumptions (1-4 literals incl. contradictory pairs and variables never seen in a clause or reservation) over 1-12 variables, plus pigeonhole 3->2 and implication chains, on CadicalSolver, ExternalSatSolver->msat (strict monitor solver) and ExternalSatSolver->kissat; every verdict is compared with a truth table over the recorded clause list, every model with all clauses and assumptions and with n_vars(); n_vars monotone and >= declared variables; an external backend that stays undecided where the reference decides is a disagreement between backends. In addition the contract is asserted by the SAT-boundary monitor on real argumentation queries per backend. Non-trivial: history with >= 2 solve calls; distinct = hash of (backend, operation list).",
+    "assumptions": ["truth-table / DPLL reference of harness/src/dpll.rs", "kissat (installed) and msat (harness, CaDiCaL-backed, strict DIMACS validation) stand for 'an external DIMACS solver'"],
+    "thresholds": {
+        "quick": {"evaluations": 200000, "distinct_nontrivial": 5000,
+                  "counters": {"histories/cadical": 5000, "histories/ext:msat": 500, "histories/ext:kissat:-q": 300,
+                               "coverage/assumption-on-unseen-variable/ext:msat": 200, "coverage/assumption-on-unseen-variable/ext:kissat": 100,
+                               "real_stream_sat_calls/ext:msat": 300}},
+        "thorough": {"evaluations": 5000000, "distinct_nontrivial": 100000, "counters": {}},
+    },
+}
+PROPS["C16"] = {
+    "level": "exploration",
+    "rule": "cases = (a) every DIMACS instance sent to the strict monitor solver msat by real argumentation queries (all non-grounded problems, selectable encoders, with/without certificate, 1-2 arguments) on frameworks of <= 8 arguments: header variable count >= every variable, exact clause count, no syntax error (msat's log is checked after every query); (b) direct ExternalSatSolver calls run in a sub-process on unique-model / contradictory CNFs with reply volumes 0, 1 KiB, 60-70 KiB in 1 KiB steps, 256 KiB, 4 MiB of comments before or after the verdict, models of 15-22k variables, requests above 64 KiB, v-line splits 1/10/all, CRLF; (c) child-side schedules early-out / slow-read / no-read / close-stdout-early; (d) ten malformed-reply kinds. A call that does not return within the watchdog is a violation only with a /proc deadlock witness (parent in wait4, child blocked writing to the pipe, no I/O progress), else inconclusive. Non-trivial: exchange bucket x size x options, or query with >= 2 SAT calls; distinct by hash.",
+    "assumptions": ["msat validates DIMACS strictly and answers honestly unless told otherwise; kissat not used here", "the schedule of the feeder thread is steered only from the child side (read/write order, delays)", "Linux pipe capacity 64 KiB"],
+    "thresholds": {
+        "quick": {"evaluations": 10000, "distinct_nontrivial": 3000,
+                  "counters": {"dimacs_instances_validated": 20000, "exchange/*": 1200, "exchange/volume/pad60-70KiB": 100,
+                               "exchange/volume/pad>512KiB": 30, "exchange_ok/sat": 200, "exchange_ok/unsat": 80,
+                               "request_bytes/>64KiB": 20}},
+        "thorough": {"evaluations": 200000, "distinct_nontrivial": 50000, "counters": {}},
+    },
+}
+PROPS["C17"] = {
+    "level": "fault_enumeration",
+    "rule": "cases = (framework, problem, encoder, query, fault kind, SAT-call position j): the query is first run fault-free to learn its number k of SAT calls, then re-run once per position j in 1..k (all of them up to 60) with `Unknown` injected by the SAT-boundary monitor; for the external path msat misbehaves at invocation j (exit-silent, status-only, truncated-model, cut mid-number, garbage line, unknown status, wrong variable, double status, crash mid-output, non-zero exit) for static solvers and the CLI (`crustabri solve --external-sat-solver msat`); dynamic solvers on 10-step histories. A run in which the injected position was not reached is inconclusive. Non-trivial: k >= 2 and j >= 2 (failure inside an enumeration loop); distinct = hash of (graph, problem, encoder, query, kind, j).",
+    "assumptions": ["a query that unwinds (panic) or a process that exits non-zero without an answer-shaped stdout line counts as aborted", "fault positions are enumerated per case, cases are sampled"],
+    "thresholds": {
+        "quick": {"evaluations": 30000, "distinct_nontrivial": 10000,
+                  "counters": {"injected/in-process/*": 20000, "injected/external/*": 1500, "injected/dynamic/*": 3000, "injected/cli/*": 100,
+                               "injected/external/truncated-model": 100, "injected/external/crash": 100}},
+        "thorough": {"evaluations": 800000, "distinct_nontrivial": 200000, "counters": {}},
+    },
+}
+MANIFEST_TEXT["C15"] = {
+    "level_text": "History checking of SatSolver objects against an independent truth-table/DPLL reference over the recorded clause list, for the embedded and two external backends, plus the same contract asserted on the real call streams of argumentation queries by the monitor that wraps every solver.",
+    "design_ref": "DESIGN.md section 5, C15", "level_note": "Trusted: harness DPLL/truth table; kissat and msat as external solvers. Memcheck on the FFI path is run separately in the thorough tier when enabled.",
+    "technique": "runtime monitoring: history + truth-table reference, SAT-boundary monitor on real call streams",
+}
+MANIFEST_TEXT["C16"] = {
+    "level_text": "Process-boundary monitoring: a strict monitor solver logs and validates every instance it is sent (offline check of the log after each query); reply volume, line splits, schedules and malformed replies are swept from the child side; non-returning calls are decided by a structural /proc deadlock witness, not by a timeout.",
+    "design_ref": "DESIGN.md section 5, C16", "level_note": "Trusted: msat's validator; /proc syscall/wchan/io sampling for the witness. Feeder-thread schedules only as far as the child's behaviour steers them.",
+    "technique": "runtime monitoring: monitor external solver (log checker), volume/schedule sweep, deadlock witness from /proc",
+}
+MANIFEST_TEXT["C17"] = {
+    "level_text": "Fault enumeration over every SAT-call position of a query (learned from a fault-free run) with Unknown injected in-process, and over ten failure kinds of an external solver process at each invocation; the oracle is 'returned vs unwound' (library) and 'exit status + answer-shaped stdout' (CLI).",
+    "design_ref": "DESIGN.md section 5, C17", "level_note": "Trusted: the monitor's call counter identifies positions; determinism of the call sequence between the fault-free and the faulty run (runs whose position is not reached are inconclusive).",
+    "technique": "runtime monitoring: fault injection at each SAT-call position, external-solver failure kinds",
+}
+NOT_APPLICABLE[:] = [e for e in NOT_APPLICABLE if e["property_id"] not in ("C15", "C16", "C17")]
